@@ -348,6 +348,8 @@ def mesh_stream(ctx, n):
     exprs, owners = [], []
     corpus = corpus_specs()
     for i in range(n + len(corpus)):
+        if G.too_many(ctx):
+            break
         desc = corpus[i] if i < len(corpus) else scenario(rng)
         kind = desc["kind"]
         try:
@@ -461,6 +463,8 @@ def table_stream(ctx, n):
     rng = ctx.rng
     base = os.path.join(str(ctx.workdir), "tab")
     for _ in range(n):
+        if G.too_many(ctx):
+            break
         tb = gen_table(rng)
         bad = table_roundtrip(tb["cols"], base)
         ctx.case(tb, len(tb["cols"]) >= 2, sample={"table": tb, "result": "as written" if not bad else bad[:2]})
@@ -490,6 +494,7 @@ def table_stream(ctx, n):
 
 # ------------------------------------------------------------------------------------------------ driver
 def run(ctx):
+    G.guard_resources()
     ctx.prove()
     quick = ctx.tier == "quick"
     ctx.extra["model_budget"] = 6000 if quick else 60000
